@@ -428,7 +428,80 @@ def rule_mark(ctx) -> None:
               "SCHEMA_VERSION is a single module-level string constant", "SCHEMA_VERSION is reassigned or not a constant", nontrivial=False)
 
 
+def rule_load_keeps_record(ctx) -> None:
+    """the boot loader re-keys the GEL edge map but hands each record on as the normaliser built it: the only fields it may
+    set are ones the writer does not persist (the runtime `id`).  Rewriting a persisted field - e.g. swapping src / dst into
+    canonical order - makes the loaded graph differ from the written one and the next snapshot differ from this one."""
+    w = ctx.func(SNAP + ":_sanitize_gel_for_write")
+    # writer's edge-record field table: keys of the dict literal stored into the edges map that it returns
+    edge_maps = {src(v) for r in walk_no_defs(w.node) if isinstance(r, ast.Return) and isinstance(r.value, ast.Dict) for k, v in zip(r.value.keys, r.value.values)
+                 if k is not None and const_str(k) == "edges" and isinstance(v, ast.Name)}
+    wfields: Set[str] = set()
+    for x in walk_no_defs(w.node):
+        if isinstance(x, ast.Assign) and isinstance(x.value, ast.Dict) and any(isinstance(t, ast.Subscript) and src(t.value) in edge_maps for t in x.targets):
+            wfields |= {const_str(k) for k in x.value.keys if k is not None and const_str(k)}
+    ctx.floor("C06.TABLE", "fields of the edge record built by the snapshot normaliser", len(wfields), 4)
+    ld = ctx.func(SNAP + ":load_latest_snapshot")
+    rd = ctx.rd(ld)
+    cfg = ctx.cfg(ld)
+    # loops over <edges>.items() whose body stores into a fresh map: the re-keying loop(s)
+    n_loops = 0
+    for lp in [x for x in walk_no_defs(ld.node) if isinstance(x, ast.For)]:
+        if not (isinstance(lp.iter, ast.Call) and call_tail(lp.iter) == "items" and isinstance(lp.target, ast.Tuple) and len(lp.target.elts) == 2 and isinstance(lp.target.elts[1], ast.Name)):
+            continue
+        rec = lp.target.elts[1].id
+        stores = [x for st in lp.body for x in walk_no_defs(st) if isinstance(x, ast.Assign) and any(isinstance(t, ast.Subscript) and isinstance(t.value, ast.Name) for t in x.targets)]
+        # names holding the record or a copy of it inside the loop
+        recs = {rec}
+        for _ in range(2):
+            for st in lp.body:
+                for x in walk_no_defs(st):
+                    if isinstance(x, ast.Assign) and len(x.targets) == 1 and isinstance(x.targets[0], ast.Name):
+                        v = x.value
+                        if (isinstance(v, ast.Call) and dotted(v.func) in ("dict", "copy.copy", "copy.deepcopy") and v.args and isinstance(v.args[0], ast.Name) and v.args[0].id in recs) \
+                                or (isinstance(v, ast.Dict) and any(k is None and isinstance(val, ast.Name) and val.id in recs for k, val in zip(v.keys, v.values))) \
+                                or (isinstance(v, ast.Name) and v.id in recs):
+                            recs.add(x.targets[0].id)
+        sink_maps = {t.value.id for x in stores for t in x.targets if isinstance(t, ast.Subscript) and isinstance(t.value, ast.Name) and t.value.id not in recs}
+        if not sink_maps:
+            continue
+        n_loops += 1
+        over: List[Tuple[str, ast.AST]] = []
+
+        def same_field(f: str, v: ast.AST) -> bool:
+            return (isinstance(v, ast.Subscript) and isinstance(v.value, ast.Name) and v.value.id in recs and const_str(v.slice) == f) or \
+                   (isinstance(v, ast.Call) and call_tail(v) == "get" and isinstance(v.func.value, ast.Name) and v.func.value.id in recs and v.args and const_str(v.args[0]) == f)
+
+        for st in lp.body:
+            for x in walk_no_defs(st):
+                if isinstance(x, ast.Assign):
+                    for t in x.targets:
+                        if isinstance(t, ast.Subscript) and isinstance(t.value, ast.Name) and t.value.id in recs:
+                            f = const_str(t.slice)
+                            if f is None or (f in wfields and not same_field(f, x.value)):
+                                over.append((f or "<computed>", x))
+                if isinstance(x, ast.Call) and dotted(x.func) == "dict" and x.args and isinstance(x.args[0], ast.Name) and x.args[0].id in recs:
+                    for kw in x.keywords:
+                        if kw.arg is None or (kw.arg in wfields and not same_field(kw.arg, kw.value)):
+                            over.append((kw.arg or "**", x))
+                if isinstance(x, ast.Dict) and any(k is None and isinstance(v, ast.Name) and v.id in recs for k, v in zip(x.keys, x.values)):
+                    for k, v in zip(x.keys, x.values):
+                        if k is not None and (const_str(k) is None or (const_str(k) in wfields and not same_field(const_str(k), v))):
+                            over.append((const_str(k) or "<computed>", x))
+                if isinstance(x, ast.Call) and isinstance(x.func, ast.Attribute) and x.func.attr in ("update", "pop", "clear", "setdefault", "popitem") and isinstance(x.func.value, ast.Name) and x.func.value.id in recs:
+                    over.append((f".{x.func.attr}()", x))
+        key = ctx.okey(f"{ld.qual}/rekey-keeps-persisted-fields")
+        if over:
+            f, node = over[0]
+            ctx.violation("C06.TABLE", key, ld.loc(node), f"the loader's re-keying loop rewrites the persisted edge field `{f}` (`{src(node)[:60]}`): the writer stores {sorted(wfields)} as they are, "
+                          "so an edge loaded this way is not the edge that was written (e.g. src / dst swapped into canonical order) and re-snapshotting the loaded state gives a different body")
+        else:
+            ctx.holds("C06.TABLE", key, ld.loc(lp), f"the re-keying loop sets no field of the writer's record table {sorted(wfields)} (only runtime-only fields such as id)")
+    ctx.floor("C06.TABLE", "re-keying loops over the loaded edge map", n_loops, 1)
+
+
 def run(ctx) -> None:
+    rule_load_keeps_record(ctx)
     rule_table(ctx)
     rule_sym(ctx)
     rule_clamp(ctx)
